@@ -185,3 +185,25 @@ func init() {
 		Stubs:  append(append([]string{}, stubCrypto...), stubErrors...),
 	})
 }
+
+const nMacSpecs = 29
+
+func init() {
+	register(&PropSpec{
+		ID:   "C06",
+		Pkgs: []string{"root"},
+		Items: func(tier string, seed int64) []Item {
+			var it []Item
+			for i := 0; i < nMacSpecs; i++ {
+				it = append(it, Item{PkgKey: "root", Func: "VerifC06_Enc", Shape: []int{i}})
+				it = append(it, Item{PkgKey: "root", Func: "VerifC06_Dec", Shape: []int{i}})
+			}
+			it = append(it, Item{PkgKey: "root", Func: "VerifC06_Registry", Shape: []int{0}}, Item{PkgKey: "root", Func: "VerifC06_Registry", Shape: []int{1}})
+			it = append(it, Item{PkgKey: "root", Func: "VerifC06_MHDR", Shape: []int{}}, Item{PkgKey: "root", Func: "VerifC06_FCtrl", Shape: []int{}})
+			it = append(it, Item{PkgKey: "root", Func: "VerifC06_CFListDec", Shape: []int{0}}, Item{PkgKey: "root", Func: "VerifC06_CFListDec", Shape: []int{1}})
+			return it
+		},
+		Bounds: func(tier string) map[string]string { return map[string]string{} },
+		Stubs:  stubErrors,
+	})
+}
